@@ -3,7 +3,7 @@
 
     internal/martian/proxy_conn.go   handle, handleConnectRequest, handleMITM, tunnel,
                                      handleUpgradeResponse, writeErrorResponse, writeResponse,
-                                     skipTraceWroteResponse          (proxy_handler.go: the twins)
+                                     writeTunnelResponse, write      (proxy_handler.go: the twins)
     internal/martian/proxy_trace.go  traceReadRequest / traceWroteResponse
     http_proxy.go middlewareStack    trace.ReadRequest  = if info.Req != nil then p.ReadRequest(info.Req)
                                      trace.WroteResponse = if info.Res != nil then p.WroteResponse(info.Res)
@@ -19,14 +19,19 @@
                                      proxyproto.Conn on the header timeout) or any other error, every time it is called
 
   The control flow is a path grammar: one `Path` per way a single iteration of `handle` can
-  end; `Path.events` is computed by functions that mirror `writeResponse`,
-  `skipTraceWroteResponse`, `writeErrorResponse` and `tunnel`, so where the trace fires is
-  derived, not postulated.  The model mirrors the code *including* its defects:
+  end; `Path.events` is computed by functions that mirror `write` (`writeResponse` /
+  `writeTunnelResponse`), `writeErrorResponse` and `tunnel`, so where the trace fires is
+  derived, not postulated.
 
-    F40  `skipTraceWroteResponse` skips every error-free 101, also the 101 with which an
-          upstream proxy *rejects* a CONNECT — the client's (handleConnectRequest →
-          writeResponse(res)) or the transport's own (roundTrip error → writeErrorResponse →
-          writeResponse(res)); no tunnel follows — that exchange is never reported complete.
+  Repaired (F40): whether a written response is reported at once used to be guessed from its shape
+  (`skipTraceWroteResponse`: every error-free CONNECT 2xx and every error-free 101 was left to "the
+  tunnel that follows"), also for the 101 with which an upstream proxy *rejects* a CONNECT — the
+  client's (handleConnectRequest → writeResponse(res)) or the transport's own (roundTrip error →
+  writeErrorResponse → writeResponse(res)) —, after which no tunnel follows: that exchange was never
+  reported complete.  Now the caller says so: only `tunnel` writes with `writeTunnelResponse` (silent
+  unless the write fails, the report comes at teardown); every other response is written with
+  `writeResponse`, which reports it whatever its method and status.  `handleMITM` therefore no longer
+  reports the 200 itself.
 
   Repaired (F12): the error response for a CONNECT rejection that happened inside the transport
   (`maybeConnectErrorResponse`) used to keep `res.Request` = the transport's own CONNECT request, so
@@ -87,17 +92,18 @@ def Counters.sumTotal (c : Counters) (keys : List (Nat × Method)) : Nat :=
 
 /-! ## The trace points of proxy_conn.go -/
 
-/-- `skipTraceWroteResponse(res, err)`; `m` is `res.Request.Method` -/
-def skipTraceWroteResponse (m : Method) (status : Nat) (err : Bool) : Bool :=
-  if err then false
-  else if m = .connect ∧ status / 100 = 2 then true
-  else if status = 101 then true
-  else false
+/-- the trace part of `write(res, tunnel)`: `m` = method of `res.Request` (which is whatever the
+    builder of `res` put there), `werr` = the write or flush failed, `tunnel` = the caller opens a
+    tunnel with this response and reports it when the tunnel is closed.  The shape of the response
+    (method, status) plays no part. -/
+def write (m : Method) (status : Nat) (werr tunnel : Bool) : List Event :=
+  if !tunnel || werr then [.wrote m status] else []
 
-/-- the trace part of `writeResponse(res)`: `m` = method of `res.Request` (which is whatever the
-    builder of `res` put there), `werr` = the write or flush failed -/
-def writeResponse (m : Method) (status : Nat) (werr : Bool) : List Event :=
-  if skipTraceWroteResponse m status werr then [] else [.wrote m status]
+/-- `writeResponse(res)`: a response that is complete once written -/
+def writeResponse (m : Method) (status : Nat) (werr : Bool) : List Event := write m status werr false
+
+/-- `writeTunnelResponse(res)`: the head that opens a tunnel (called by `tunnel` only) -/
+def writeTunnelResponse (m : Method) (status : Nat) (werr : Bool) : List Event := write m status werr true
 
 /-- where the error handed to `writeErrorResponse` came from: `maybeConnectErrorResponse(err)`
     is non-nil exactly for the transport's `OnProxyConnectResponse` error -/
@@ -120,12 +126,12 @@ inductive TunnelEnd
   | closed         -- bicopy returned (either side closed, any order): traceWroteResponse(res, nil)
   deriving DecidableEq, Repr
 
-/-- `tunnel`: head written (trace skipped for CONNECT 2xx / 101 when error-free), then the
+/-- `tunnel`: head written with `writeTunnelResponse` (silent unless the write fails), then the
     deferred report -/
 def tunnel (m : Method) (status : Nat) : TunnelEnd → List Event
-  | .writeError => writeResponse m status true
-  | .drainFailure => writeResponse m status false ++ [.wrote m status]
-  | .closed => writeResponse m status false ++ [.wrote m status]
+  | .writeError => writeTunnelResponse m status true
+  | .drainFailure => writeTunnelResponse m status false ++ [.wrote m status]
+  | .closed => writeTunnelResponse m status false ++ [.wrote m status]
 
 /-! ## Exit paths of one iteration of `handle` -/
 
@@ -168,8 +174,8 @@ inductive Path
   | mitmResponseModifierError (st : Nat) (w : Bool)
   /-- MITM: writing the 200 failed -/
   | mitmWriteError
-  /-- MITM: 200 written, reported at once; the requests inside the TLS session are further
-      iterations of `handle` on the same connection (further `Path`s) -/
+  /-- MITM: 200 written with `writeResponse`, which reports it at once; the requests inside the TLS
+      session are further iterations of `handle` on the same connection (further `Path`s) -/
   | mitmHandoff
   deriving DecidableEq, Repr
 
@@ -191,7 +197,7 @@ def Path.events : Path → List Event
   | .connectTunnel e => .read .connect :: tunnel .connect 200 e
   | .mitmResponseModifierError st w => .read .connect :: writeResponse .connect st w
   | .mitmWriteError => .read .connect :: writeResponse .connect 200 true
-  | .mitmHandoff => .read .connect :: (writeResponse .connect 200 false ++ [.wrote .connect 200])
+  | .mitmHandoff => .read .connect :: writeResponse .connect 200 false
 
 /-- the request read on this path, if any -/
 def Path.request : Path → Option Method
@@ -238,13 +244,6 @@ def Path.shutdown : Path → Bool
   | .shutdownAfterRead _ => true
   | _ => false
 
-/-- the recorded defect class, decided from the path alone:
-    F40 = a CONNECT (the client's, or the transport's own) rejected with 101 and written without error -/
-def Path.defect : Path → Bool
-  | .transportConnectRejected _ st w => st = 101 && !w
-  | .connectRejected st w => st = 101 && !w
-  | _ => false
-
 /-- what the property asks of a path: one `read`, then exactly one `wrote` carrying the method
     of that request and the status written to the client; nothing when no request was read -/
 def Path.expected (p : Path) : List Event :=
@@ -252,8 +251,9 @@ def Path.expected (p : Path) : List Event :=
   | none => []
   | some m => [.read m, .wrote m p.clientStatus]
 
-/-- the paths the conservation theorems speak about -/
-def Path.good (p : Path) : Bool := p.valid && !p.shutdown && !p.defect
+/-- the paths the conservation theorems speak about: every path of the grammar outside shutdown
+    (no defect class is excluded any more: F12 and F40 are repaired) -/
+def Path.good (p : Path) : Bool := p.valid && !p.shutdown
 
 /-- number of requests read on a list of paths -/
 def numRequests (ps : List Path) : Nat := (ps.filter fun p => p.request.isSome).length
